@@ -156,6 +156,9 @@ def run(ctx, progs):
         # ------------------------------------------------------------ R14.4 guest forms (shared with C03)
         c03.rule_try_access(ctx, prog, eff)
         c03.rule_clients(ctx, prog, eff)
+        # the region-level exact / up-to stream forms forward to the slice-level form of the SAME name with their arguments in place
+        # (an exact form forwarded to the up-to form would report success for a short transfer)
+        c03.rule_region_forwarders(ctx, prog, eff)
     ctx.not_decided = ["byte-exactness under every fault script (needs execution against scripted streams)"]
     return ctx.finish(
         "other",
